@@ -109,6 +109,10 @@ type Header struct {
 
 // Load checks the Magic sequence and loads the header fields.
 func (h *Header) Load(buf []byte) error {
+	// The fixed part of the header (magic, header length, value size, number of buckets, version) is 25 bytes.
+	if len(buf) < 8+4+8+4+1 {
+		return fmt.Errorf("invalid header length")
+	}
 	// Use a magic byte sequence to bail fast when user passes a corrupted/unrelated stream.
 	if *(*[8]byte)(buf[:8]) != Magic {
 		return fmt.Errorf("not a radiance compactindex file")
